@@ -47,7 +47,8 @@ EXPLANATION = (
     "status interpolated into that response's header is proven 2x. (W1/W6) only protocol "
     "methods touch the transport; foreign code is called inside catch-all funnels. "
     "Event ordering at run time and behaviour of transports after close() are not decided. "
-    "(W7) A strict .encode() in a response sink before the first write is either applied to a provably surrogate-free string (flow-sensitive provenance) or caught on every call chain up to the asyncio callback."
+    "(W7) A strict .encode() in a response sink before the first write is either applied to a provably surrogate-free string (flow-sensitive provenance) or caught on every call chain up to the asyncio callback. "
+    "(W8) The request-line parsers raise only ValueError: constant subscripts are dominated by an existence test (or the protocol catches everything around the parser)."
 )
 
 HEADER_RE = re.compile(r"^[1-6][0-9] [^\r\n]*\r\n$")
